@@ -1,5 +1,5 @@
 SPECIFICATION Spec
-CONSTANT Budget = 5
+CONSTANT Budget = 4
 CONSTANT MaxField = 3
 CONSTANT NegControl = FALSE
 CONSTANT Rich = TRUE
